@@ -70,6 +70,33 @@ def err_variant(F, b, pt):
     return "+".join(sorted(out)) or "-"
 
 
+def _exception_holds(F, b, pt, cond):
+    """the infeasibility argument of an exit exception: on no path to the exit does a `no` call on the field follow an
+    `after` call on it"""
+    fld = cond["field"]
+    def on_field(t):
+        return any(f == fld for a in t["args"][:1] for _, f in guards.slice_of_operand(b, a)["fields"])
+    def closure_calls(t, suffix):
+        # `opt.map(|m| m.insert(..))`: the operation happens inside the closure handed to this call
+        for a in t["args"]:
+            l = op_local(a)
+            d = b.single_def(l) if l is not None else None
+            if d and d[2] == "assign" and d[3]["k"] == "agg" and d[3].get("ak") == "closure" and F.has(d[3]["clo"]):
+                if any(callee_of(tt).endswith(suffix) for _, tt in F.body(d[3]["clo"]).calls()):
+                    return True
+        return False
+    bad = [bi for bi, t in b.calls() if (callee_of(t).endswith(cond["no"]) and on_field(t)) or (closure_calls(t, cond["no"]) and on_field(t))]
+    aft = [bi for bi, t in b.calls() if (callee_of(t).endswith(cond["after"]) and on_field(t)) or (closure_calls(t, cond["after"]) and on_field(t))]
+    if not aft:
+        return False
+    for i in aft:
+        after_i = b.reach_from(b.succ()[i])
+        for x in bad:
+            if x in after_i and pt["bb"] in b.reach_from(b.succ()[x]):
+                return False
+    return True
+
+
 def run_family(F, rule, methods, census, exceptions, label, exit_exceptions={}):
     fam = set(methods)
     # summaries of the family (mutates? fails?) by fixpoint from the optimistic assumption
@@ -124,8 +151,12 @@ def run_family(F, rule, methods, census, exceptions, label, exit_exceptions={}):
                 continue
             seen.add(k)
             if k in exit_exceptions:
-                rule.ok(k, b.where(pt["bb"], pt["si"]), "accepted (infeasible exit): " + exit_exceptions[k])
-                continue
+                exc_ = exit_exceptions[k]
+                why_ = exc_ if isinstance(exc_, str) else exc_.get("why", "")
+                cond = None if isinstance(exc_, str) else exc_.get("holds_if")
+                if cond is None or _exception_holds(F, b, pt, cond):
+                    rule.ok(k, b.where(pt["bb"], pt["si"]), "accepted (infeasible exit): " + why_)
+                    continue
             muts = sorted({ee["what"].split(" [")[0] for ee, pp in real if pp is pt or (pp["bb"], pp["si"]) == (pt["bb"], pt["si"])})
             rule.violation(k, b.where(pt["bb"], pt["si"]),
                            "%s can fail at this exit (%s) after %d state mutation(s) already happened: %s"
